@@ -29,7 +29,7 @@ Next == /\ ph = 0 /\ ph' = 1 /\ UNCHANGED <<sz, idx>>
         /\ LET prog == Decode(TLCGet(3), TLCGet(4), sz, idx)
                r == RunInCtxTracked(<<prog>>)
                c == [kind |-> "stepper", tag |-> Which \o ":" \o HeadTag(prog), src |-> PrStr(prog), ctx |-> Which,
-                     forms |-> <<prog>>, allow |-> Outcome(r, {"x", "y", "e"})]
+                     forms |-> <<prog>>, sz |-> sz, idx |-> idx, allow |-> Outcome(r, {"x", "y", "e"})]
            IN PrintT("CASE " \o ToJson(c))
 Spec == Init /\ [][Next]_<<sz, idx, ph>>
 =============================================================================
